@@ -378,7 +378,14 @@ def conv(r):
 class C05(Prop):
     id = "C05"
     theorems = ["appendAll_ok_iff", "appendAll_rejects_duplicates", "initAxes_forms_agree", "construct_wf",
-                "construct_rejects_shape", "take_wf", "takeAxisPos_wf"]
+                "construct_rejects_shape", "take_wf", "takeAxisPos_wf", "take_all_wf", "put_wf", "putBool_wf", "reindexAxis_wf", "reindexLike_wf", "sortAxis_wf",
+                "align_wf", "operation_wf", "operationNd_wf", "transpose_wf", "swapaxes_wf", "rollaxis_wf",
+                "squeeze_wf", "newaxis_wf", "repeatAxis_wf", "broadcast_wf", "broadcastArrays_wf", "flatten_wf",
+                "unflattenAll_wf", "reshape_wf", "stack_wf", "concatenate_wf", "reduceAxis_wf", "argAxis_wf",
+                "cumAxis_wf", "diffAxis_wf", "takeAxis_wf", "compressAxis_wf", "dropna_wf", "fillna_wf",
+                "setna_wf", "interpAxis_wf", "DSV.takeDs_wf", "DSV.takeAxisPosDs_wf", "DSV.sortAxisDs_wf", "DSV.reindexAxisDs_wf",
+                "DSV.reduceDs_wf", "DSV.interpAxisDs_wf", "DSV.setItem_wf", "DSV.fromVars_wf", "DSV.copyDs_wf", "DSV.binaryOpDs_scalar_wf",
+                "DSV.binaryOpDs_ds_wf", "DSV.stackDs_wf", "DSV.concatenateDs_wf"]
     rule = ("(a) constructor groups: one set of axes (rank 0-4, sizes 0-4, int/float/str labels) given through every "
             "documented form (label lists + dims, lists as python lists, (name, labels) pairs, Axis objects, dict + dims, "
             "OrderedDict, dict without dims, labels= keyword, names only, nothing) with values as ndarray / nested list / "
